@@ -236,3 +236,47 @@ pub fn harness_natives(builder: &mut GlobalsBuilder) {
         })
     }
 }
+
+/// Native functions with every kind of parameter, returning the tuple of bound values (C08, native call path).
+#[starlark_module]
+pub fn binding_natives(builder: &mut GlobalsBuilder) {
+    fn nat_po2<'v>(#[starlark(require = pos)] a: Value<'v>, #[starlark(require = pos)] b: Value<'v>, heap: Heap<'v>) -> anyhow::Result<Value<'v>> {
+        Ok(heap.alloc((a, b)))
+    }
+    fn nat_pk2<'v>(a: Value<'v>, b: Value<'v>, heap: Heap<'v>) -> anyhow::Result<Value<'v>> {
+        Ok(heap.alloc((a, b)))
+    }
+    fn nat_pk_def<'v>(a: Value<'v>, #[starlark(default = 101)] b: i32, heap: Heap<'v>) -> anyhow::Result<Value<'v>> {
+        Ok(heap.alloc((a, b)))
+    }
+    fn nat_po_pk_def<'v>(#[starlark(require = pos)] a: Value<'v>, b: Value<'v>, #[starlark(default = 102)] c: i32, heap: Heap<'v>) -> anyhow::Result<Value<'v>> {
+        Ok(heap.alloc((a, b, c)))
+    }
+    fn nat_named<'v>(#[starlark(require = named)] d: Value<'v>, #[starlark(require = named, default = 201)] e: i32, heap: Heap<'v>) -> anyhow::Result<Value<'v>> {
+        Ok(heap.alloc((d, e)))
+    }
+    fn nat_pk_named<'v>(a: Value<'v>, #[starlark(require = named)] d: Value<'v>, heap: Heap<'v>) -> anyhow::Result<Value<'v>> {
+        Ok(heap.alloc((a, d)))
+    }
+    fn nat_args<'v>(a: Value<'v>, #[starlark(args)] args: UnpackTuple<Value<'v>>, heap: Heap<'v>) -> anyhow::Result<Value<'v>> {
+        Ok(heap.alloc((a, heap.alloc(starlark::values::tuple::AllocTuple(args.items)))))
+    }
+    fn nat_kwargs<'v>(a: Value<'v>, #[starlark(kwargs)] kwargs: Value<'v>, heap: Heap<'v>) -> anyhow::Result<Value<'v>> {
+        Ok(heap.alloc((a, kwargs)))
+    }
+    fn nat_all<'v>(
+        #[starlark(require = pos)] a: Value<'v>,
+        #[starlark(default = 101)] b: i32,
+        #[starlark(args)] args: UnpackTuple<Value<'v>>,
+        #[starlark(require = named)] d: Value<'v>,
+        #[starlark(require = named, default = 201)] e: i32,
+        #[starlark(kwargs)] kwargs: Value<'v>,
+        heap: Heap<'v>,
+    ) -> anyhow::Result<Value<'v>> {
+        let args = heap.alloc(starlark::values::tuple::AllocTuple(args.items));
+        Ok(heap.alloc(starlark::values::tuple::AllocTuple(vec![a, heap.alloc(b), args, d, heap.alloc(e), kwargs])))
+    }
+    fn nat_only_args_kwargs<'v>(#[starlark(args)] args: UnpackTuple<Value<'v>>, #[starlark(kwargs)] kwargs: Value<'v>, heap: Heap<'v>) -> anyhow::Result<Value<'v>> {
+        Ok(heap.alloc((heap.alloc(starlark::values::tuple::AllocTuple(args.items)), kwargs)))
+    }
+}
